@@ -1,3 +1,4 @@
+import Lm.Inst.CoreTie
 import Lm.Inv.CoreSafe
 import Lm.Inv.CoreGuards
 /-!
@@ -101,5 +102,11 @@ example : ((run {} demo).st.mods.map (·.state)) = [.zombie, .stopped] := by dec
 example : ((run {} demo).st.ctx.map (·.running)) = some 0 := by decide
 example : (run {} (demo.take 5)).stack.length = 2 := by decide
 example : ((run {} (demo.take 9)).st.ctx.map (·.running)) = some 1 := by decide
+
+
+/-- tie A: the guard prefixes of the entry points this property is about, re-extracted from the source on every run,
+are the ones the model transcribes (`Lm.Inst.CoreTie`) -/
+theorem C01_guards_in_source :
+    Lm.Inst.CoreTie.slice Lm.Generated.CoreGuards.guards ["m_mod_start", "m_mod_pause", "m_mod_resume", "m_mod_stop", "mod_deregister", "m_mod_deregister"] = Lm.Inst.CoreTie.slice Lm.Inst.CoreTie.expected ["m_mod_start", "m_mod_pause", "m_mod_resume", "m_mod_stop", "mod_deregister", "m_mod_deregister"] := by decide
 
 end Lm.Props.C01
